@@ -64,24 +64,30 @@ def cfg_items(obj):
 
 
 class Snap:
-    """bytes of everything reachable from a chain object"""
+    """copies of everything reachable from a chain object; the represented vector is contracted lazily
+    (it is a function of the tensors and the prefactor, so it is needed only when those changed)"""
 
     def __init__(self, mp):
-        self.tensors = tuple((m.array.shape, str(m.array.dtype), m.array.tobytes()) if m is not None else None for m in mp._mp)
+        self.arrs = [np.array(m.array) if m is not None else None for m in mp._mp]
+        self.tensors = tuple((a.shape, str(a.dtype), a.tobytes()) if a is not None else None for a in self.arrs)
+        self.coeff_val = getattr(mp, "coeff", None)
         self.coeff = repr(complex(mp.coeff)) if hasattr(mp, "coeff") else None
-        self.qn = tuple(np.asarray(q).tobytes() for q in mp.qn) if mp.qn is not None else None
-        self.meta = (mp.qnidx, mp.to_right, str(mp.dtype), np.asarray(mp.qntot).tobytes() if mp.qntot is not None else None,
+        self.qn_raw = [np.array(q) for q in mp.qn] if mp.qn is not None else None
+        self.qn = tuple(q.tobytes() for q in self.qn_raw) if self.qn_raw is not None else None
+        self.qntot = np.array(mp.qntot) if mp.qntot is not None else None
+        self.qnidx, self.to_right, self.cls = mp.qnidx, mp.to_right, type(mp).__name__
+        self.meta = (mp.qnidx, mp.to_right, str(mp.dtype), self.qntot.tobytes() if self.qntot is not None else None,
                      repr(getattr(mp, "offset", None)))
         self.cfg = cfg_items(mp)
         self.model = tuple(str(b.dofs) for b in mp.model.basis) if mp.model is not None else None
-        r = chain_repr(mp)
-        self.repr = r
-        self.repr_bytes = r.tobytes() if r is not None else None
-        self.lists = (id(mp._mp), id(mp.qn))
-        self._ser = L.ser_mp(mp) if all(m is not None for m in mp._mp) else None
+        self._repr = None
 
-    def ser(self):
-        return self._ser
+    @property
+    def repr(self):
+        if self._repr is None and all(a is not None for a in self.arrs):
+            c = self.coeff_val if self.coeff_val is not None else 1
+            self._repr = np.asarray(L.dense_chain(self.arrs) * c, dtype=complex)
+        return self._repr
 
     def diff(self, other):
         """names of the parts that differ"""
@@ -96,8 +102,20 @@ class Snap:
             d.append("config")
         if self.model != other.model:
             d.append("model")
-        if self.repr_bytes != other.repr_bytes:
-            d.append("repr")
+        if ("tensors" in d or "coeff" in d):
+            a, b = self.repr, other.repr
+            if (a is None) != (b is None) or (a is not None and (a.shape != b.shape or a.tobytes() != b.tobytes())):
+                d.append("repr")
+        return d
+
+    def ser(self):
+        if any(a is None for a in self.arrs):
+            return None
+        d = dict(cls=self.cls, tensors=[L.ser_arr(a) for a in self.arrs],
+                 qn=[q.tolist() for q in self.qn_raw] if self.qn_raw is not None else None,
+                 qnidx=self.qnidx, qntot=self.qntot.tolist() if self.qntot is not None else None, to_right=self.to_right)
+        if self.coeff_val is not None:
+            d["coeff"] = [complex(self.coeff_val).real, complex(self.coeff_val).imag]
         return d
 
 
@@ -151,7 +169,7 @@ class ChainEnv:
     def _build_holstein(self):
         rng = self.rng
         nmol = int(rng.integers(2, 4))
-        nph = int(rng.integers(1, 3))
+        nph = int(rng.integers(1, 3)) if nmol == 2 else 1
         mols = []
         self.desc = dict(kind="holstein", nmol=nmol, ph=[])
         for i in range(nmol):
@@ -510,15 +528,19 @@ def chain_ops(env):
         s = env.pick(env.states(mps_only=True))
         return "MpDm.from_mps", [s], False, lambda: MpDm.from_mps(env.objs[s]), {}
 
-    def op_evolve():
-        s = env.pick(env.states())
+    def op_evolve(method=None, imag=None, s=None):
+        forced = method is not None
+        if s is None:
+            s = env.pick(env.states())
         S = env.objs[s]
         h = env.pick(["H0", "H1"])
         H = env.objs[h]
-        method = EVOLVE_METHODS[int(rng.integers(0, len(EVOLVE_METHODS)))]
-        imag = bool(rng.random() < 0.45)
+        if method is None:
+            method = EVOLVE_METHODS[int(rng.integers(0, len(EVOLVE_METHODS)))]
+        if imag is None:
+            imag = bool(rng.random() < 0.45)
         adaptive = bool(rng.random() < 0.3) and method in ("prop_and_compress", "prop_and_compress_tdrk", "tdvp_ps")
-        step = float(rng.choice([0.05, 0.2]))
+        step = 0.05 if forced else float(rng.choice([0.05, 0.2]))
         dt = -1j * step if imag else step
         kw = dict(adaptive=adaptive, guess_dt=dt / 2)
         if method == "prop_and_compress_tdrk":
@@ -539,12 +561,14 @@ def chain_ops(env):
                      cls=type(S).__name__, normalize=norm, rk=kw.get("rk_solver"), ivp=kw.get("ivp_solver", "krylov"))
         return f"evolve:{method}", [s, h], method in REGAUGE_EVOLVE, lambda: S.evolve(H, dt, normalize=norm), extra
 
-    def op_evolve_exact():
+    def op_evolve_exact(s=None, h=None):
         if not env.holstein:
             return None
-        s = env.pick(env.states())
+        if s is None:
+            s = env.pick(env.states())
         S = env.objs[s]
-        h = env.pick(["H0", "H1"])
+        if h is None:
+            h = env.pick(["H0", "H1"])
         H = env.objs[h]
         space = "GS" if rng.random() < 0.5 else "EX"
         dt = float(rng.choice([0.1, 0.7]))
@@ -578,6 +602,8 @@ def chain_ops(env):
         # expand_bond_dimension adds an expander to self through Mps.add: coefficient folding applies
         return "expand_bond_dimension", [s, h], True, call, {}
 
+    env.op_evolve = op_evolve
+    env.op_evolve_exact = op_evolve_exact
     return [op_copy, op_metacopy, op_conj, op_to_complex, op_scale, op_add, op_add, op_add_mpdm, op_add_mpo, op_distance,
             op_dot, op_apply, op_apply, op_mpdm_apply, op_mpo_mpo, op_conj_trans, op_variational, op_measure, op_measure,
             op_copy_then_mutate, op_copy_then_mutate, op_from_mps, op_evolve, op_evolve, op_evolve, op_evolve, op_evolve,
@@ -800,6 +826,22 @@ def search(run, rng, quick):
             continue
         run.count(f"env:{env.kind}")
         ops = chain_ops(env)
+        # systematic part: every evolution scheme in real and imaginary time, the closed-form propagator with
+        # zero and non-zero offset, for a pure state and a density operator
+        sweep = []
+        for meth in EVOLVE_METHODS:
+            for imag in (False, True):
+                tgt = "S0" if rng.random() < 0.7 else env.pick(env.states())
+                sweep.append(lambda meth=meth, imag=imag, tgt=tgt: env.op_evolve(meth, imag, tgt))
+        if env.holstein:
+            for h in ("H0", "H1"):
+                for tgt in ("S1", "R0"):
+                    sweep.append(lambda h=h, tgt=tgt: env.op_evolve_exact(tgt, h))
+        for th in sweep:
+            run_chain_call(run, env, th)
+            nev += 1
+            if env.log:
+                distinct.add((env.kind, env.log[-1]["op"], str(sorted(env.log[-1].items()))))
         for _ in range(14 if quick else 24):
             th = ops[int(rng.integers(0, len(ops)))]
             run_chain_call(run, env, th)
